@@ -29,7 +29,7 @@ REQUIRED = {
     "C06": ["free-worker-and-active-task", "idle-but-task-cannot-accept", "must-finish"],
     "C07": ["charged", "absence-step"],
     "C10": ["project-absence-step", "worker-absence", "auto-at-absence"],
-    "C12": ["pert-at-later-step", "unit:second-update"],
+    "C12": ["pert-at-later-step", "unit:second-update", "unit:grown"],
     "C13": ["two-components-share-workplace", "finished-component-released", "entered-workplace-with-inputs", "moved-between-workplaces", "facility-used"],
     "C14": ["component-without-task", "component-with-two-tasks"],
 }
@@ -81,6 +81,20 @@ def wf_cubes(T, layouts, wmax, kinds=(0, 1, 2, 3), edge_sets=None, H=8, rule=0, 
                 if rule:
                     nm += "/rule=%d" % rule
                 obs.append({"name": nm, "harness": "sim", "cube": {"spec": spec}, "params": [["w%d" % i, 0, wmax] for i in range(T)], "timeout": timeout})
+    return obs
+
+
+def p_double_edges(wmax=2, H=10, timeout=150):
+    """Two dependencies of different kinds between the same pair of tasks (registered in both orders), behind a third task."""
+    obs = []
+    for k1 in (0, 1, 2, 3):
+        for k2 in (0, 1, 2, 3):
+            if k1 == k2:
+                continue
+            spec = {"tasks": [{"w": "$w%d" % i} for i in range(3)], "edges": [[0, 1, 0], [1, 2, k1], [1, 2, k2]],
+                    "teams": layout_workers("private", 3), "run": {"max_time": H}}
+            obs.append({"name": "double/1%s2+1%s2" % (KN[k1], KN[k2]), "harness": "sim", "cube": {"spec": spec},
+                        "params": [["w%d" % i, 0, wmax] for i in range(3)], "timeout": timeout})
     return obs
 
 
@@ -199,11 +213,13 @@ def p_facility(thorough=False, H=8, timeout=120):
     for layout in layouts:
         for fsk in ("all", "w0f0-only"):
             for solo_f in (False, True):
-                for fixf in (None, "t0:f1"):
+                for fixf in (None, "t0:f1", "t0:f1+w1"):
                     for mixed in (False, True):
                         tasks = [{"w": "$w0", "nf": True, "comp": 0}, {"w": "$w1", "nf": (not mixed), "comp": 1}]
-                        if fixf == "t0:f1":
+                        if fixf in ("t0:f1", "t0:f1+w1"):
                             tasks[0]["fixf"] = [1]
+                        if fixf == "t0:f1+w1":
+                            tasks[0]["fixw"] = [1]
                         if layout == "1wp2f":
                             wps = [{"targets": [0, 1], "cap": "$cap", "facs": [
                                 {"skills": {"0": "$f00", "1": 1}, "solo": solo_f, "abs": ["$fa0"]},
@@ -263,7 +279,7 @@ def p_cost(thorough=False, H=8, timeout=120):
                 comps = [{"size": 1}]
             ws0 = [{"skills": {"0": 1, "1": 1}, "cost": "$c0", "abs": ["$a0"], "fskills": {"0": 1}}]
             ws1 = [{"skills": {"0": 1, "1": 1}, "cost": "$c1", "fskills": {"0": 1}}]
-            spec = {"tasks": tasks, "edges": [[0, 1, k]], "teams": [_team(ws0, [0, 1]), _team(ws1, [0, 1])], "wps": wps, "comps": comps,
+            spec = {"tasks": tasks, "edges": [[0, 1, k]], "teams": [_team(ws0, [0, 1]), dict(_team(ws1, [0, 1]), parent=0)], "wps": wps, "comps": comps,
                     "run": {"max_time": H, "abs": ["$pa0", "$pa1"]}}
             params = [["w0", 0, 3], ["w1", 0, 3], ["c0", 0, 3], ["c1", 0, 3], ["a0", -1, 2], ["pa0", -1, 3], ["pa1", -1, 3]]
             if with_fac:
@@ -297,6 +313,9 @@ def p_feasible(thorough=False, timeout=150):
                     ws = [{"skills": {str(i): "$s%d" % i}, "abs": (["$a0"] if i == 0 else [])} for i in range(T)] + [{"skills": {str(i): 1 for i in range(T)}}]
                 spec = {"tasks": [{"w": "$w%d" % i} for i in range(T)], "edges": [[i, j, k] for (i, j), k in zip(es, ks)],
                         "teams": [_team(ws, list(range(T)))], "run": {"max_time": H, "abs": ["$pa0"]}}
+                if layout == "shared2" and len(es) <= 1:
+                    # the last task admits nobody (empty fixed-ID list): it can never be served
+                    spec["tasks"][T - 1]["fixw"] = []
                 params = [["w%d" % i, 0, wmax] for i in range(T)] + [["s%d" % i, 0, 2] for i in range(T)] + [["a0", -1, 2], ["pa0", -1, 2]]
                 if layout == "chainshare":
                     params = [["w%d" % i, 0, 3] for i in range(T)] + [["s0", 0, 2], ["a0", -1, 3], ["pa0", -1, 2]]
@@ -416,6 +435,17 @@ def split_param(obs, name, only_if=None):
     return out
 
 
+def with_history(obs, mode, kmax=4, narrow=None):
+    """The same members, but the observed simulate() follows an earlier call (see simcore.run_sim_history)."""
+    out = []
+    for ob in obs:
+        pr = ob["params"]
+        if narrow:
+            pr = [[n, max(lo, narrow[n][0]), min(hi, narrow[n][1])] if n in narrow else [n, lo, hi] for n, lo, hi in pr]
+        out.append(dict(ob, harness="sim_history", name="%s/%s" % (mode, ob["name"]), cube=dict(ob["cube"], mode=mode), params=pr + [["k", 0, kmax]]))
+    return out
+
+
 def obligations_for(prop, tier):
     import os
 
@@ -435,7 +465,9 @@ def _obligations_for(prop, tier):
             obs += p_progress_auto()
             obs += p_absence(kinds=(0, 1, 2, 3), flags=(False, True))
             obs += p_rules(rules=(0, 4, 5))
+            obs += p_double_edges(2)
         else:
+            obs += p_double_edges(3)
             obs = wf_cubes(3, ["private", "shared2"], 3, name="kinds", H=12, timeout=900)
             obs += wf_cubes(2, ["shared1", "shared2", "private"], 4, name="kinds", H=12, timeout=600)
             obs += p_progress_auto(wmax=4, H=12, timeout=600)
@@ -447,6 +479,13 @@ def _obligations_for(prop, tier):
     if prop in ("C02", "C03", "C04", "C06"):
         obs = p_contention(thorough, H=12 if thorough else 8, timeout=900 if thorough else 150)
         obs += p_facility(thorough, H=12 if thorough else 8, timeout=900 if thorough else 150)
+        if prop == "C03":
+            fj = [ob for ob in p_facility(thorough, H=12 if thorough else 8, timeout=900 if thorough else 150) if "fsk=all" in ob["name"] and "fixf=None" in ob["name"]]
+            obs += with_history(fj, "json-resume", 4, {"f11": (1, 1), "a1": (-1, -1), "fa0": (-1, 0), "s00": (1, 2), "f00": (1, 2), "w0": (2, 3), "w1": (1, 2), "cap": (1, 2)})
+        if prop == "C06":
+            pj = [ob for ob in p_product("F1", thorough, H=12 if thorough else 8, timeout=900 if thorough else 150) if "wps=1" in ob["name"] or thorough]
+            obs += with_history(pj, "cut+state", 3, {"cap0": (1, 2), "cap1": (1, 2), "fs0": (1, 1), "fs1": (1, 1)})
+            obs += p_product("N2", thorough, H=12 if thorough else 8, timeout=900 if thorough else 150)
         if prop == "C06":
             obs += p_absence(wmax=3 if thorough else 2, H=12 if thorough else 8, timeout=900 if thorough else 200, kinds=(0, 2) if not thorough else (0, 1, 2, 3))
         if prop in ("C03", "C04", "C06"):
@@ -458,6 +497,8 @@ def _obligations_for(prop, tier):
         return obs
     if prop == "C12":
         obs = wf_cubes(3, ["shared2", "private"], 3, kinds=(0,), name="fs", timeout=600 if thorough else 150, H=12)
+        # task 1 is complete from the start (default progress 1)
+        obs += wf_cubes(3, ["shared2"], 3, kinds=(0,), name="fs-done1", timeout=600 if thorough else 150, H=12, extra_task=lambda i: ({"g": 2} if i == 1 else {}))
         four = [es for es in all_edge_sets(4)]
         if not thorough:
             four = [es for k, es in enumerate(four) if k % 4 == 1]
@@ -468,6 +509,9 @@ def _obligations_for(prop, tier):
         for kind in ("F1", "F2", "N1", "N2", "F3"):
             obs += p_product(kind, thorough, timeout=900 if thorough else 150)
         obs += [ob for ob in p_product("F1", thorough, timeout=900 if thorough else 150, absence=True) if thorough or "wprule=0" in ob["name"]]
+        pj = [ob for ob in p_product("F1", thorough, timeout=900 if thorough else 150) if "wprule=0" in ob["name"] or thorough]
+        obs += with_history(pj, "json-resume", 3, {"fs0": (1, 1), "fs1": (1, 1), "z0": (1, 2), "z1": (1, 1)})
+        obs += [ob for ob in p_facility(thorough, timeout=900 if thorough else 150) if "2wp" in ob["name"] and "fsk=all" in ob["name"]]
         return obs
     if prop == "C14":
         obs = []
@@ -486,7 +530,10 @@ def _obligations_for(prop, tier):
             obs.append(ob)
         return obs
     if prop == "C07":
-        return split_param(split_param(p_cost(thorough, timeout=900 if thorough else 150), "pa0"), "a0") + p_facility(thorough, timeout=900 if thorough else 150)[:8]
+        obs = split_param(split_param(p_cost(thorough, timeout=900 if thorough else 150), "pa0"), "a0") + p_facility(thorough, timeout=900 if thorough else 150)[:8]
+        for kind in ("N1", "N2"):
+            obs += [ob for ob in p_product(kind, thorough, timeout=900 if thorough else 150) if "wprule=0" in ob["name"] or thorough]
+        return obs
     if prop == "C10":
         return [ob for ob in p_contention(thorough, H=12 if thorough else 8, timeout=900 if thorough else 150) if "/rule=0/" in ob["name"] and "solo=None" in ob["name"]] + split_param(p_absence(wmax=3 if thorough else 2, H=12 if thorough else 8, timeout=900 if thorough else 200), "pa0") + split_param(p_cost(thorough, timeout=900 if thorough else 150), "pa0")
     raise KeyError(prop)
